@@ -5,6 +5,7 @@ CONSTANTS
   GuardCombine = TRUE
   GuardControl = TRUE
   SafeDecode = TRUE
+  GuardEndpoint = TRUE
   NoSigpipe = TRUE
   MaxHist = 4
 INVARIANTS C35_NoThrow
